@@ -53,6 +53,13 @@ def set_ambient(spec, scratch):
                "recursionlimit": r.choice([1000, 1000, 700, 5000])}
         if os.environ.get("VERIF_AMBIENT") == "plain":
             amb = {"home": "h", "cwd": "h", "umask": 0o022, "tz": "UTC", "locale": "", "recursionlimit": 1000}
+    import locale as _loc
+    amb["ascii_io"] = _loc.getpreferredencoding(False).lower().replace("-", "") in ("ascii", "ansi_x3.41968", "us-ascii", "646")
+    if amb["ascii_io"]:
+        # file names must be encodable in the file-system encoding of this interpreter
+        for k in ("home", "cwd"):
+            if not amb[k].isascii():
+                amb[k] = "ascii only"
     home = os.path.join(scratch, "H" + amb["home"])
     cwd = os.path.join(scratch, "W" + amb["cwd"])
     os.makedirs(home, exist_ok=True)
